@@ -257,6 +257,13 @@ rf64_read_header (SF_PRIVATE *psf, int *blockalign, int *framesperblock)
 				break ;
 
 			case fmt_MARKER:
+					/* As in wav.c : a second fmt chunk is not looked at (peak info and channel map are already sized from the first). */
+					if (parsestage & HAVE_fmt)
+					{	psf_log_printf (psf, "%M : %u (second fmt chunk, skipped)\n", marker, chunk_size) ;
+						psf_binheader_readf (psf, "j", chunk_size) ;
+						break ;
+						} ;
+
 					psf_log_printf (psf, "%M : %u\n", marker, chunk_size) ;
 					if ((error = wavlike_read_fmt_chunk (psf, chunk_size)) != 0)
 						return error ;
